@@ -179,7 +179,14 @@ Definition var_def (vs : varstore) (t : vtype) (from to : val) : res varstore :=
       else
         let types' := set_range (vs_types vs) (N.to_nat (cf - 65)) (N.to_nat (ct - 65)) t 0 in
         let keep (kv : str * val) :=
-          if negb (last_is_alpha (fst kv)) then true
+          (* only unsuffixed names whose letter lies in the range change type *)
+          let k := fst kv in
+          let suffixed := ends_with_chr k 33 || ends_with_chr k 35 || ends_with_chr k 37 || ends_with_chr k 36 in
+          let in_range := match after_last_dot k k with
+                          | c :: _ => (cf <=? c)%N && (c <=? ct)%N
+                          | [] => false
+                          end in
+          if suffixed || negb in_range then true
           else match val_type (snd kv) with
                | Some t' => vtype_eqb t t'
                | None => true
